@@ -25,9 +25,8 @@ GROUPS: dict[str, list[tuple[str, str]]] = {
                                                     "_compile_vectorized_unary_gradient")]
                 + [("core/autodiff.py", n) for n in ("compute_jacobian", "compile_jacobian", "_is_scaled_variable_pattern")],
     "hessian": [("core/autodiff.py", "compute_hessian"), ("core/autodiff.py", "compile_hessian")],
-    "degree": [("analysis.py", n) for n in ("compute_degree", "_estimate_tree_depth", "_compute_degree_cached", "is_linear",
-                                             "is_quadratic")]
-              + [("core/expressions.py", "Expression.degree")],
+    # compute_degree, _compute_degree_cached, is_linear, is_quadratic, Expression.degree are translated (py2lean_degentry.py)
+    "degree": [("analysis.py", "_estimate_tree_depth")],
     # extract_all_linear_coefficients, _try_extract_fast_binop, _vector_is_aligned are translated (py2lean_lpfast.py)
     "lp_extract": [("analysis.py", n) for n in ("extract_linear_coefficient", "extract_constant_term")],
     "solution": [("solution.py", "Solution")],
